@@ -34,7 +34,7 @@ const char *__ubsan_default_options(void) { return "print_stacktrace=1:halt_on_e
 
 static int thorough;
 static double t_main0;
-static int t_case_s = 5;           /* per-case time bound (s) */
+static int t_case_s = 5;           /* per-case CPU-time bound (s) */
 #define BATCH 1000
 #define FLOOD_N 6                  /* identical crashes per (group, class) before the rest of the class is skipped */
 #define CHUNK 30000                /* max cases per work group */
@@ -321,6 +321,8 @@ typedef struct {
     const char *const *quick_only; /* quick tier: only these seeds (thorough: all seeds of the kinds) */
     const char *const *byte_only;  /* quick tier: byte-value class only for these seeds; thorough: 255 values for these, 8 for the others */
     const char *const *der_only;   /* quick tier: DER-structure class only for these seeds (thorough: all) */
+    const char *const *thorough_only; /* thorough tier: only these seeds */
+    const char *const *wide_only;  /* thorough tier: 255 byte values only for these seeds (default: byte_only list, else all seeds <= 2 KB) */
 } entry_t;
 
 static const char *const lk_cert_seeds[] = { "EC/256_EC.pem", "RSA/1024_RSA.pem", "EC/ED25519.pem", NULL };
@@ -337,6 +339,11 @@ static const char *const x509_der_seeds[] = { "EC/256_EC.pem", "RSA/2048_RSA.pem
     "RSA/2048_RSA_SHA512.pem", "RSA/2048_RSA_PSS_CA.pem", "ECDH_RSA/256_ECDH-RSA.pem", "ECDH_RSA/ecdsaCert.pem", "trusted-roots/DSTRootCAX3.pem",
     "trusted-roots/DigiCertGlobalRootCA.pem", NULL };
 static const char *const x509_quick4_seeds[] = { "EC/256_EC.pem", "RSA/2048_RSA_PSS.pem", "embedded/rich_ec256.der", "EC/ALL_EC_CAS_EXCEPT_P192_P224_AND_P521.pem", NULL };
+static const char *const x509_store_byte_seeds[] = { "EC/256_EC.pem", "RSA/2048_RSA_PSS.pem", "embedded/rich_ec256.der", "EC/ALL_EC_CAS_EXCEPT_P192_P224_AND_P521.pem",
+    "EC/ED25519.pem", "RSA/1024_RSA_MD4.pem", NULL };
+static const char *const p8e_byte_seeds[] = { "embedded/p8e_ec256.der", "embedded/p8_ec256.der", NULL };
+static const char *const unkpriv_byte_seeds[] = { "EC/256_EC_KEY.pem", "EC/ED25519_KEY.pem", "embedded/p8_ec256.der", "EC/256_EC_KEY.noparam.nopub.pem", "EC/256_EC_KEY.noparam.pem", NULL };
+static const char *const lk_byte_seeds[] = { "EC/256_EC.pem", "EC/256_EC_KEY.pem", "EC/256_EC_CA.pem", NULL };
 static const char *const rsa_byte_seeds[] = { "RSA/1024_RSA_KEY.pem", "RSA/2048_RSA_KEY.pem", NULL };
 static const char *const dh_byte_seeds[] = { "DH/dh512.pem", "DH/1024_DH_PARAMS.pem", "DH/ffdhe2048_DH_PARAMS.pem", "DH/dh2048_key.pem", NULL };
 static const char *const pem_cert_byte_seeds[] = { "EC/256_EC.pem", "RSA/1024_RSA.pem", "EC/ED25519.pem", "RSA/2048_RSA_PSS.pem", "embedded/rich_ec256.pem",
@@ -346,9 +353,9 @@ static const char *const pem_any_byte_seeds[] = { "EC/256_EC_KEY.pem", "RSA/1024
     "RSA/2048_RSA_KEY_encrypted.pem", NULL };
 #define STORE (CERT_STORE_UNPARSED_BUFFER | CERT_STORE_DN_BUFFER)
 static const entry_t entries[] = {
-    { "psX509ParseCert/flags0", F_X509, 0, NULL, KB(K_CERT_DER), 0, C_ALL, 0, NULL, INT_MAX, x509_quick4_seeds, x509_quick4_seeds },
-    { "psX509ParseCert/store", F_X509, STORE, NULL, KB(K_CERT_DER), 0, C_ALL, 0, NULL, INT_MAX, NULL, x509_quick_seeds, x509_der_seeds },
-    { "psX509ParseCert/partial", F_X509, STORE | CERT_ALLOW_BUNDLE_PARTIAL_PARSE, NULL, KB(K_CERT_DER), 0, C_ALL, 0, NULL, INT_MAX, x509_quick_seeds, x509_quick4_seeds },
+    { "psX509ParseCert/flags0", F_X509, 0, NULL, KB(K_CERT_DER), 0, C_ALL, 0, NULL, INT_MAX, x509_quick4_seeds, x509_quick4_seeds, NULL, x509_der_seeds },
+    { "psX509ParseCert/store", F_X509, STORE, NULL, KB(K_CERT_DER), 0, C_ALL, 0, NULL, INT_MAX, NULL, x509_store_byte_seeds, x509_der_seeds },
+    { "psX509ParseCert/partial", F_X509, STORE | CERT_ALLOW_BUNDLE_PARTIAL_PARSE, NULL, KB(K_CERT_DER), 0, C_ALL, 0, NULL, INT_MAX, x509_quick_seeds, x509_quick4_seeds, NULL, x509_der_seeds },
     { "psX509ParseCertData/pem", F_X509DATA, STORE, NULL, KB(K_CERT_PEM), 1, C_ALL, 4000, NULL, INT_MAX, NULL, pem_cert_byte_seeds },
     { "psX509ParseCertData/pem-partial", F_X509DATA, STORE | CERT_ALLOW_BUNDLE_PARTIAL_PARSE, NULL, KB(K_CERT_PEM), 1, C_IDENT | C_TRUNC | C_PEM, 0, NULL, INT_MAX },
     { "psX509ParseCertData/der", F_X509DATA, 0, NULL, KB(K_CERT_DER), 1, C_IDENT | C_TRUNC | C_DER, 0, x509data_der_seeds, INT_MAX },
@@ -357,11 +364,11 @@ static const entry_t entries[] = {
     { "psX509ParseCRL", F_CRL, 0, NULL, KB(K_CRL_DER), 0, C_ALL | C_RAW3, 0, NULL, 0 },
     { "psOcspParseResponse", F_OCSP, 0, NULL, KB(K_OCSP_DER), 0, C_ALL | C_RAW3, 0, NULL, 0 },
     { "psPkcs8ParsePrivBin", F_P8, 0, NULL, KB(K_P8_DER), 0, C_ALL | C_RAW3, 0, NULL, INT_MAX },
-    { "psPkcs8ParsePrivBin/pass", F_P8, 0, C09_PASSWORD, KB(K_P8E_DER) | KB(K_P8_DER), 0, C_ALL, 0, NULL, INT_MAX },
+    { "psPkcs8ParsePrivBin/pass", F_P8, 0, C09_PASSWORD, KB(K_P8E_DER) | KB(K_P8_DER), 0, C_ALL, 0, NULL, INT_MAX, NULL, NULL, NULL, NULL, p8e_byte_seeds },
     { "psRsaParsePkcs1PrivKey", F_RSAPRIV, 0, NULL, KB(K_RSAKEY_DER), 0, C_ALL | C_RAW3, 0, NULL, INT_MAX, NULL, rsa_byte_seeds },
-    { "psEccParsePrivKey", F_ECPRIV, 0, NULL, KB(K_ECKEY_DER), 0, C_ALL | C_RAW3, 0, NULL, INT_MAX },
+    { "psEccParsePrivKey", F_ECPRIV, 0, NULL, KB(K_ECKEY_DER), 0, C_ALL | C_RAW3, 0, NULL, INT_MAX, NULL, NULL, NULL, NULL, unkpriv_byte_seeds },
     { "psEd25519ParsePrivKey", F_EDPRIV, 0, NULL, KB(K_P8_DER), 0, C_ALL | C_RAW3, 0, NULL, INT_MAX },
-    { "psParseUnknownPrivKeyMem", F_UNKPRIV, 0, NULL, KB(K_RSAKEY_DER) | KB(K_ECKEY_DER) | KB(K_P8_DER) | KB(K_MISC_DER), 0, C_ALL, 700, NULL, 16 },
+    { "psParseUnknownPrivKeyMem", F_UNKPRIV, 0, NULL, KB(K_RSAKEY_DER) | KB(K_ECKEY_DER) | KB(K_P8_DER) | KB(K_MISC_DER), 0, C_ALL, 700, NULL, 16, NULL, NULL, NULL, NULL, unkpriv_byte_seeds },
     { "psParseUnknownPrivKeyMem/pass", F_UNKPRIV, 0, C09_PASSWORD, KB(K_P8E_DER), 0, C_IDENT | C_TRUNC | C_DER, 0, NULL, 16 },
     { "psPkcs12ParseMem", F_P12, 0, C09_PASSWORD, KB(K_P12), 0, C_ALL, 0, NULL, 0 },
     { "matrixSslLoadPkcs12Mem", F_LOADP12, 0, C09_PASSWORD, KB(K_P12), 0, C_IDENT | C_TRUNC | C_DER, 0, NULL, 0 },
@@ -369,9 +376,9 @@ static const entry_t entries[] = {
     { "psPemDecode/pass", F_PEMDEC, 0, C09_PASSWORD, KB(K_KEY_PEM) | KB(K_ENCKEY_PEM), 1, C_ALL, 2000, NULL, 0, NULL, pem_any_byte_seeds },
     { "psPemDecode/unterminated", F_PEMDEC, 0, C09_PASSWORD, KB(K_ENCKEY_PEM), 0, C_IDENT | C_RAW | C_PEM, 0, NULL, 0 },
     { "psPemTryDecode", F_PEMTRY, 0, C09_PASSWORD, KB(K_KEY_PEM) | KB(K_ENCKEY_PEM) | KB(K_PUB_PEM) | KB(K_CERT_PEM), 1, C_IDENT | C_TRUNC | C_PEM | C_RAW, 0, NULL, 0 },
-    { "matrixSslLoadKeysMem/cert-pem", F_LOADKEYS, 0, NULL, KB(K_CERT_PEM), 1, C_ALL & ~C_RAW, 0, lk_cert_seeds, 0 },
-    { "matrixSslLoadKeysMem/key-pem", F_LOADKEYS, 1, NULL, KB(K_KEY_PEM), 1, C_ALL & ~C_RAW, 0, lk_key_seeds, 0 },
-    { "matrixSslLoadKeysMem/ca-pem", F_LOADKEYS, 2, NULL, KB(K_CERT_PEM), 1, C_ALL, 0, lk_ca_seeds, 0 },
+    { "matrixSslLoadKeysMem/cert-pem", F_LOADKEYS, 0, NULL, KB(K_CERT_PEM), 1, C_ALL & ~C_RAW, 0, lk_cert_seeds, 0, NULL, NULL, NULL, NULL, lk_byte_seeds },
+    { "matrixSslLoadKeysMem/key-pem", F_LOADKEYS, 1, NULL, KB(K_KEY_PEM), 1, C_ALL & ~C_RAW, 0, lk_key_seeds, 0, NULL, NULL, NULL, NULL, lk_byte_seeds },
+    { "matrixSslLoadKeysMem/ca-pem", F_LOADKEYS, 2, NULL, KB(K_CERT_PEM), 1, C_ALL, 0, lk_ca_seeds, 0, NULL, NULL, NULL, NULL, lk_byte_seeds },
     { "matrixSslLoadKeysMem/cert-der", F_LOADKEYS, 0, NULL, KB(K_CERT_DER), 1, C_IDENT | C_TRUNC | C_DER, 0, lk_cert_seeds, 0 },
     { "matrixSslLoadKeysMem/key-der", F_LOADKEYS, 1, NULL, KB(K_ECKEY_DER) | KB(K_RSAKEY_DER) | KB(K_P8_DER), 1, C_IDENT | C_TRUNC | C_DER, 0, lk_key_seeds, 0 },
     { "matrixSslLoadKeysMem/ca-der", F_LOADKEYS, 2, NULL, KB(K_CERT_DER), 1, C_IDENT | C_TRUNC | C_DER, 0, lk_ca_seeds, 0 },
@@ -408,6 +415,10 @@ static int entry_takes(const entry_t *E, const seed_t *s)
         return 0;
     }
     if (!thorough && E->quick_only && !seed_in_list(s, E->quick_only))
+    {
+        return 0;
+    }
+    if (thorough && E->thorough_only && !seed_in_list(s, E->thorough_only))
     {
         return 0;
     }
@@ -888,7 +899,9 @@ static void layout_of(const entry_t *E, int si, const dtree_t *t, layout_t *L)
     {
         const seed_t *s = &seeds[si];
         int listed = E->byte_only == NULL || seed_in_list(s, E->byte_only);
-        L->vals = (thorough && s->len <= 2048 && listed) ? 255 : 8;
+        const char *const *wl = E->wide_only ? E->wide_only : E->byte_only;
+        int wide = wl == NULL || seed_in_list(s, wl);
+        L->vals = (thorough && s->len <= 2048 && wide) ? 255 : 8;
         if (E->classes & C_IDENT) L->n_ident = 1;
         if (E->classes & C_TRUNC) L->n_trunc = (long) s->len;
         if ((E->classes & C_BYTE) && (E->byte_cap == 0 || s->len <= E->byte_cap) && (thorough || listed)) L->n_byte = (long) s->len * L->vals;
@@ -1024,7 +1037,7 @@ static void arm_timer(int s)
     struct itimerval it;
     memset(&it, 0, sizeof(it));
     it.it_value.tv_sec = s;
-    setitimer(ITIMER_REAL, &it, NULL);
+    setitimer(ITIMER_PROF, &it, NULL); /* CPU time of this process: immune to machine load */
 }
 
 /* flood control: (top,sub) buckets that are no longer executed in the current work group */
@@ -1304,8 +1317,8 @@ static void classify_crash(int st, char *kind, size_t kn, char *site, size_t sn,
     }
     else if (WIFSIGNALED(st))
     {
-        snprintf(kind, kn, WTERMSIG(st) == SIGALRM ? "hang" : "crash-sig%d", WTERMSIG(st));
-        snprintf(line, ln, WTERMSIG(st) == SIGALRM ? "no result within %d s" : "killed by signal %d", WTERMSIG(st) == SIGALRM ? t_case_s : WTERMSIG(st));
+        snprintf(kind, kn, WTERMSIG(st) == SIGPROF ? "hang" : "crash-sig%d", WTERMSIG(st));
+        snprintf(line, ln, WTERMSIG(st) == SIGPROF ? "no result within %d s of CPU time" : "killed by signal %d", WTERMSIG(st) == SIGPROF ? t_case_s : WTERMSIG(st));
     }
     else
     {
@@ -1484,8 +1497,9 @@ static int external_replay(const char *d, char *key, size_t kn, char *what, size
     const char *ao = getenv("C09_ASAN_ORIG"), *uo = getenv("C09_UBSAN_ORIG");
     FILE *f;
     int got = 0;
-    snprintf(cmd, sizeof(cmd), "ASAN_OPTIONS='%s' UBSAN_OPTIONS='%s' '%s' --tier %s --desc '%s' 2>/dev/null",
-        ao ? ao : __asan_default_options(), uo ? uo : __ubsan_default_options(), self_exe, tier_name, d);
+    /* /proc/<pid>/exe stays executable even if the build directory is pruned while we run */
+    snprintf(cmd, sizeof(cmd), "ASAN_OPTIONS='%s' UBSAN_OPTIONS='%s' /proc/%d/exe --tier %s --desc '%s' 2>/dev/null",
+        ao ? ao : __asan_default_options(), uo ? uo : __ubsan_default_options(), (int) getpid(), tier_name, d);
     f = popen(cmd, "r");
     if (!f)
     {
@@ -1803,6 +1817,24 @@ int main(int argc, char **argv)
     {
         ssize_t n = readlink("/proc/self/exe", self_exe, sizeof(self_exe) - 1);
         self_exe[n > 0 ? n : 0] = 0;
+    }
+    {
+        /* pin the library directory (testkeys) by its real path: the driver directory's `lib` symlink may be pruned by a concurrent build */
+        char l[PATH_MAX], r[PATH_MAX], t[PATH_MAX];
+        const char *ld = getenv("MXV_LIBDIR");
+        if (ld)
+        {
+            snprintf(l, sizeof(l), "%s", ld);
+        }
+        else
+        {
+            snprintf(t, sizeof(t), "%s", self_exe);
+            snprintf(l, sizeof(l), "%s/lib", dirname(t));
+        }
+        if (realpath(l, r))
+        {
+            setenv("MXV_LIBDIR", r, 1);
+        }
     }
 #if defined(MXV_VARIANT_asan)
     if (!replay && !getenv("C09_NOSYM") && self_exe[0])
